@@ -14,7 +14,7 @@ def spec(tier):
     keys = "%s,%s,ec:P-256,ec:P-384,ec:P-521,ec:secp256k1,ec:brainpoolP512r1,ec:brainpoolP384r1,ec:brainpoolP256r1,okp:Ed25519,okp:Ed448,okp:X25519" % (octs, rsas)
     # every alg both as explicit alg (key without alg) and as key alg attribute (no explicit alg); tokens signed by the
     # harness with the weak key for every header alg the key's family can sign
-    return "prov=0,1;route=0,1;cfg=0..14;keys=%s;kalg=-1,1..14;pub=0,1;hdr=1..14;sig=2;op=v,g;pinonly=1" % keys
+    return "prov=0,1;route=0,1,9;cfg=0..14;keys=%s;kalg=-1,1..14;pub=0,1;hdr=1..14;sig=2;op=v,g;pinonly=1" % keys
 
 
 def run(tier, seed, replay):
